@@ -26,7 +26,7 @@ COMPILERS = {
 # generator masks that keep the corpus mostly inside each compiler's supported kind and make the
 # compiler's own feature frequent
 MASKS = {
-    "grounder": dict(),
+    "grounder": dict(static_guards=0.6),
     "cerm": dict(conditional=True, cond_prob=0.6),
     "dcrm": dict(disjunction=True, cond_prob=0.5, op_bias={"or": 4, "implies": 1}),
     "ncrm": dict(negation=True, numeric=False, objfluents=False, implies=False, equality=False, bool_expr_assign=False, op_bias={"not": 3}),
@@ -34,7 +34,7 @@ MASKS = {
     "utfrm": dict(objfluents=True),
     "btrm": dict(bounded=True),
     "sirm": dict(invariants=True),
-    "tcrm": dict(invariants=False, traj=True, numeric=False, objfluents=False),
+    "tcrm": dict(invariants=False, traj=True, numeric=False, objfluents=False, static_guards=0.3),
     "uinrm": dict(undefined=True, numeric=True),
 }
 
